@@ -19,8 +19,19 @@ ASSUMPTIONS = ["interpolation residual <= 1e-7 * (1 + max |Q|)",
 
 @st.composite
 def _walk(draw, n, dim):
+    pts = draw(_walk0(n, dim))
+    if len(pts) >= 4 and pts[0] != pts[-2] and draw(st.integers(0, 5)) == 0:
+        pts[-1] = list(pts[0])          # a closed loop: the last data point is the first one again (consecutive points stay distinct)
+    return pts
+
+
+@st.composite
+def _walk0(draw, n, dim):
     """n points: a random walk on the 1/8 grid with every step between 1/4 and 4 in max-norm."""
     pts = [[draw(st.integers(-32, 32)) / 8.0 for _ in range(dim)]]
+    special = draw(st.sampled_from([None, None, None, "origin-first", "closed"]))
+    if special == "origin-first":
+        pts = [[0.0] * dim]          # the data start exactly at the origin
     if draw(st.integers(0, 3)) == 0:
         # strongly uneven sampling: step lengths 2^-3 .. 2^6 (dense runs separated by gaps)
         for _ in range(n - 1):
